@@ -83,6 +83,12 @@ def _worker(args):
         return dict(machinery=traceback.format_exc()[-1500:])
 
 
+def _in_pool(args):
+    """one `_worker` call in a worker process — never in the parent: the parent must not import rtflite / polars
+    (their thread pools do not survive a later fork: the next pool would hang)"""
+    return common.pool_map(_worker, [args] * 4)[0]
+
+
 def _on_error_default(self, spec, info, ob):
     return [f"rtf_encode failed or output unreadable: {ob.get('exc', '')} {ob.get('msg', '')}"]
 
@@ -149,7 +155,7 @@ def run_family(fam: Family, res: common.Result, build, rule, trusted, assume, ex
                 try:
                     small = shrink(fam, case, known_fn)
                     if small is not case:
-                        o2 = _worker((fam, 0, 0, "quick", dict(spec=small["spec"], info=small["info"])))
+                        o2 = _in_pool((fam, 0, 0, "quick", dict(spec=small["spec"], info=small["info"])))
                         f2 = list(o2.get("fails") or [])
                         if known_fn is not None and f2:
                             f2, _ = known_fn(o2, f2)
@@ -219,7 +225,7 @@ def shrink(fam: Family, case, known_fn=None, budget=40):
     def fails(c):
         if c is None:
             return False
-        o = _worker((fam, 0, 0, "quick", dict(spec=c["spec"], info=c["info"])))
+        o = _in_pool((fam, 0, 0, "quick", dict(spec=c["spec"], info=c["info"])))
         f = list(o.get("fails") or []) if "machinery" not in o else []
         if known_fn is not None and f:
             f, _ = known_fn(o, f)
